@@ -397,6 +397,9 @@ void check_options (void)
 	if (ctrl.C_plus_plus && ctrl.bison_bridge_lval)
 		flexerror (_("bison bridge not supported for the C++ scanner."));
 
+	if (ctrl.C_plus_plus && tablesext)
+		flexerror (_("Can't use --tables-file or --tables-verify with -+"));
+
 	if (ctrl.C_plus_plus && !is_default_backend())
 		flexerror (_("Can't use -+ with the --emit option"));
 
